@@ -11,6 +11,7 @@ package stringy
 import (
 	"context"
 	"regexp"
+	"strings"
 
 	tq "github.com/facebookincubator/tacquito"
 	"github.com/facebookincubator/tacquito/cmds/server/config"
@@ -87,7 +88,10 @@ func (a CommandBasedAuthorizer) evaluate() bool {
 		}
 	}
 	for _, c := range a.user.Commands {
-		c.TrimSpace()
+		// trimmed into locals: c is a copy, but its Match slice still points into the user's
+		// configuration, which every concurrent request of this user reads - writing the trimmed
+		// patterns back (config.Command.TrimSpace) is a data race
+		c.Name = strings.TrimSpace(c.Name)
 		if c.Name == "*" {
 			// special condition of allow anything
 			return returnBool(c.Action)
@@ -101,6 +105,7 @@ func (a CommandBasedAuthorizer) evaluate() bool {
 		}
 
 		for _, regexish := range c.Match {
+			regexish = strings.TrimSpace(regexish)
 			if len(regexish) == 0 {
 				continue
 			}
